@@ -244,6 +244,21 @@ struct static_array  // NOLINT(fuchsia-multiple-inheritance) : multiple inherita
 		std::move(other).layout_mutable() = typename static_array::layout_type(typename static_array::extensions_type{});  // = {};  careful! this is the place where layout can become invalid
 	}
 
+ protected:
+	// moves the elements of `other` into a new block of this array's own allocator (for allocators that are not interchangeable)
+	auto allocate_and_move_elements_(static_array& other) -> typename static_array::element_ptr {
+		auto const count    = static_cast<typename multi::allocator_traits<allocator_type>::size_type>(other.num_elements());
+		auto const new_base = array_alloc::allocate(count);
+		try {
+			adl_alloc_uninitialized_move_n(this->alloc(), other.data_elements(), other.num_elements(), new_base);
+		} catch(...) {
+			if(count != 0) { multi::allocator_traits<allocator_type>::deallocate(this->alloc(), new_base, count); }
+			throw;
+		}
+		return new_base;
+	}
+
+ public:
 	constexpr explicit static_array(decay_type&& other) noexcept
 	: static_array(std::move(other), allocator_type{}) {}  // 6b
 
@@ -1289,11 +1304,19 @@ struct array : static_array<T, D, Alloc> {
 	}
 
 #ifndef NOEXCEPT_ASSIGNMENT
-	auto operator=(array&& other) noexcept -> array& {
+	auto operator=(array&& other) noexcept(multi::allocator_traits<typename array::allocator_type>::propagate_on_container_move_assignment::value || multi::allocator_traits<typename array::allocator_type>::is_always_equal::value) -> array& {
 		if(this == std::addressof(other)) {
 			return *this;
 		}
 		clear();
+		if constexpr(!multi::allocator_traits<typename array::allocator_type>::propagate_on_container_move_assignment::value && !multi::allocator_traits<typename array::allocator_type>::is_always_equal::value) {
+			if(!(this->alloc() == other.alloc())) {  // the block of `other` can only be released through its own allocator
+				this->base_            = this->allocate_and_move_elements_(other);
+				this->layout_mutable() = other.layout();
+				other.clear();
+				return *this;
+			}
+		}
 		this->base_ = other.base_;
 		if constexpr(multi::allocator_traits<typename array::allocator_type>::propagate_on_container_move_assignment::value) {
 			this->alloc() = std::move(other.alloc());
